@@ -8,16 +8,29 @@ import re
 
 import vf
 
-E = os.path.join(vf.HARNESS, "engines", "chaindb")
+E = os.environ.get("G9_ENGINE_DIR") or os.path.join(vf.HARNESS, "engines", "chaindb")
 RES = {"ok": 0, "known": 1, "cached": 2, "orphan": 3, "err": 4}
 RC = {"none": 0, "nomain": 1, "ok": 2, "panic": 3}
 TXS = {"absent": 0, "side": 1, "main": 2, "panic": 3}
 
 
+def aergo_lib_dir(ctx):
+    rc, out = vf.sh(["go", "list", "-m", "-f", "{{.Dir}}", "github.com/aergoio/aergo-lib"], cwd=ctx.repo, env=ctx.goenv(), timeout=300)
+    d = out.strip().split("\n")[-1].strip()
+    if rc != 0 or not os.path.isdir(d):
+        raise RuntimeError("cannot locate module github.com/aergoio/aergo-lib: " + out[-500:])
+    return d
+
+
 def build_engine(ctx):
+    # The journaling store for crash-during-recovery is registered as a db implementation through a file ADDED to
+    # aergo-lib's db package by the overlay; Go's module index ignores overlay additions in the module cache, hence goindex=0.
+    os.environ["GODEBUG"] = "goindex=0"
+    libdb = os.path.join(aergo_lib_dir(ctx), "db", "zz_verif_dbreg.go")
     rc, log, path = ctx.go_test_binary(
         "chain", [os.path.join(E, "zz_verif_chaindb_engine_test.go"), os.path.join(E, "zz_verif_journal_test.go")],
-        "chaindb.test", overlay_extra={"state/zz_verif_state_shim.go": os.path.join(E, "zz_verif_state_shim.go")})
+        "chaindb.test", overlay_extra={"state/zz_verif_state_shim.go": os.path.join(E, "zz_verif_state_shim.go"),
+                                       libdb: os.path.join(E, "zz_verif_dbreg.go.txt")})
     if rc != 0:
         raise RuntimeError("chaindb engine build failed:\n" + log[-4000:])
     return path
@@ -46,14 +59,24 @@ def run_engine(ctx, path, cases, tag):
 def source_has_f7_fix(repo):
     """The model parameter f7_fixed follows the source under test: the repaired reorg() restores
     the state root when rollforward fails."""
-    global F27_FIXED
+    global F27_FIXED, F28_FIXED
     F27_FIXED = source_has_f27_fix(repo)
+    F28_FIXED = source_has_f28_fix(repo)
     src = open(os.path.join(repo, "chain", "reorg.go")).read()
     m = re.search(r"if err := reorg\.rollforward\(\); err != nil \{(.*?)\n\t\}", src, re.S)
     return bool(m and "SetRoot" in m.group(1))
 
 
 F27_FIXED = False
+F28_FIXED = False
+
+
+def source_has_f28_fix(repo):
+    """Model parameter f28: getTx/getReceipt/getReceipts test the error of GetBlockByNo before using its
+    result (fixes/F28_query_nil_deref.diff)."""
+    src = open(os.path.join(repo, "chain", "chainhandle.go")).read()
+    m = re.search(r"func \(cs \*ChainService\) getReceipts\(blockHash.*?\n\}", src, re.S)
+    return bool(m and re.search(r"err != nil \|\| !bytes\.Equal\(block\.BlockHash\(\), blockInMainChain", m.group(0)))
 
 
 def source_has_f27_fix(repo):
@@ -97,7 +120,7 @@ def rnd_tree(rng, nblocks, pbad=0.25, pno=0.05, min_first_tx=True):
         tips.append(name)
     if blocks and rng.random() < pbad:
         b = rng.choice(blocks)
-        b["bad"] = rng.choice(["root", "root", "exec", "txroot"])
+        b["bad"] = rng.choice(["root", "root", "exec", "txroot", "sig"])
         if b["bad"] == "root" and not b["txs"]:
             b["txs"] = rnd_txs(rng, 1, 1)
     if blocks and rng.random() < pno:
@@ -190,6 +213,7 @@ def flatten_step(ids, case, out, st, txuniv, nheights):
     v += [len(st["put"])]
     v += [ids(x) for x in st["del"]]
     v += [st["sync"]]
+    v += [(ids(st["anc"]) + 1) if st.get("anc") else 0]
     return v
 
 
@@ -215,10 +239,10 @@ def coq_case(case, out, f7_fixed):
     libs = case.get("lib") or [0] * len(case["arrivals"])
     arr = ["(%d, %d%%nat)" % (l, names.index(a)) for l, a in zip(libs, case["arrivals"])]
     exp = [flatten_step(ids, case, out, st, txuniv, nheights) for st in out["steps"]]
-    term = ("(mkCase %s [%s] [%s] [%s] [%s] %d%%nat %d%%nat %s %s [%s])" % (
+    term = ("(mkCase %s [%s] [%s] [%s] [%s] %d%%nat %d%%nat %s %s %s [%s])" % (
         gblk, "; ".join(coq_block(ids, b) for b in blocks), "; ".join(tbl), "; ".join(arr),
         ";".join(str(ids(t)) for t in txuniv), nheights, case.get("orphan_cap", 100),
-        "true" if f7_fixed else "false", "true" if F27_FIXED else "false",
+        "true" if f7_fixed else "false", "true" if F27_FIXED else "false", "true" if F28_FIXED else "false",
         "; ".join("[" + ";".join(str(x) for x in row) + "]" for row in exp)))
     return term, exp, ids
 
@@ -262,7 +286,7 @@ def first_diff(rows, exp):
     for i, (a, b) in enumerate(zip(rows, exp)):
         if a != b:
             j = next((k for k in range(min(len(a), len(b))) if a[k] != b[k]), min(len(a), len(b)))
-            return "step %d field %d: model %s impl %s (layout: res,best,bestno,latest,sdb,heights..,tx(6 each)..,blocks(5 each)..,marker,put..,nput,del..,sync)" % (
+            return "step %d field %d: model %s impl %s (layout: res,best,bestno,latest,sdb,heights..,tx(6 each)..,blocks(5 each)..,marker,put..,nput,del..,sync,anc)" % (
                 i, j, a[j:j + 4], b[j:j + 4])
     if len(rows) != len(exp):
         return "row count %d vs %d" % (len(rows), len(exp))
